@@ -24,7 +24,7 @@ ASSUMPTIONS = ["'that pointer's string form parsed again' uses unicode_escape=Fa
 
 NAMES = ["a", "b", "", "'", '"', "\\", "a\\", "\\\\", "a'b", 'a"b', "/", "~", "~1", "a/b", "0", "1", "01", "-1", "+1", " ", "\n",
          "\t", "\x01", "\x1f", "\x7f", "é", "中", "\U0001F600", "\ud83d", "and", "true", "$", "@", "*", "..", "[0]", "#", "_x",
-         "x-y", "'\\'", "\\'"]
+         "x-y", "'\\'", "\\'", "1٢", "1０", "-1٢", "12", "10"]
 
 
 def no_keys(x):
